@@ -1084,7 +1084,10 @@ Proof.
            try discriminate; intros E; injection E as <-; reflexivity]
   | solve [unfold exec_voice;
            match goal with |- context [match ?a with [] => _ | _ => _ end] => destruct a as [|a0 [|a1 ar]] end;
-           intros E; injection E as <-; reflexivity] ].
+           intros E; injection E as <-; reflexivity]
+  | (* TempoChange *)
+    solve [intros E; apply (exec_tempo_change_inv (fun x => ls_of_song x = ls_of_song s)) in E;
+           [exact E | intros s0 v H0; exact H0 | intros s0 f H0; exact H0 | reflexivity]] ].
 Qed.
 
 Definition Pls (ls0 : lexstate) (r : res song) : Prop :=
